@@ -288,6 +288,84 @@ func (b *zzBox) Set(v int64)          { b.A = v }
 func (b *zzBox) Twice() int64         { return 2 * b.A }
 func (b zzBox) Pair() (int64, string) { return b.A, b.B }
 
+// receivers that are not structs: methods of Go values reached with member
+// syntax are the value's own method set whatever its kind
+type zzStack []int64
+
+func (s *zzStack) Push(vs ...int64) int64 { *s = append(*s, vs...); return int64(len(*s)) }
+func (s zzStack) Top() int64             { return s[len(s)-1] }
+
+type zzCounter int64
+
+func (c *zzCounter) Add(d int64) int64 { *c += zzCounter(d); return int64(*c) }
+func (c zzCounter) Get() int64         { return int64(c) }
+
+type zzDict map[string]int64
+
+func (d zzDict) Put(k string, v int64) { d[k] = v }
+
+type zzOuter struct {
+	zzBox
+	N int64
+}
+
+// ZZ_C11_methods_of_other_kinds: pointer- and value-receiver methods on a
+// pointer to a named slice / integer, on a named map, promoted through an
+// embedded struct; plain, spread and through a container.
+func ZZ_C11_methods_of_other_kinds() {
+	a, w := zz.Int64(), zz.Int64()
+	st := &zzStack{a}
+	cn := new(zzCounter)
+	*cn = zzCounter(a)
+	dc := zzDict{}
+	out := &zzOuter{zzBox: zzBox{A: a, B: "b"}, N: 1}
+	e := env.NewEnv()
+	e.Define("st", st)
+	e.Define("cn", cn)
+	e.Define("dc", dc)
+	e.Define("out", out)
+	e.Define("W", w)
+	switch zz.Choose(10) {
+	case 0:
+		r, err := Execute(e, nil, "st.Push(W)")
+		zz.Assert(err == nil && r == int64(2) && len(*st) == 2 && (*st)[1] == w, "C11.method/pointer-receiver-on-pointer-to-named-slice")
+	case 1:
+		r, err := Execute(e, nil, "st.Push([W, 7]...)")
+		zz.Assert(err == nil && r == int64(3) && len(*st) == 3 && (*st)[1] == w && (*st)[2] == 7, "C11.method/pointer-receiver-on-pointer-to-named-slice/spread")
+	case 2:
+		r, err := Execute(e, nil, "st.Top()")
+		x, ok := r.(int64)
+		zz.Assert(err == nil && ok && x == a, "C11.method/value-receiver-through-pointer-to-named-slice")
+	case 3:
+		r, err := Execute(e, nil, "cn.Add(W)")
+		x, ok := r.(int64)
+		zz.Assert(err == nil && ok && x == a+w && int64(*cn) == a+w, "C11.method/pointer-receiver-on-pointer-to-named-integer")
+	case 4:
+		r, err := Execute(e, nil, "cn.Get()")
+		x, ok := r.(int64)
+		zz.Assert(err == nil && ok && x == a, "C11.method/value-receiver-through-pointer-to-named-integer")
+	case 5:
+		_, err := Execute(e, nil, "dc.Put(\"k\", W)")
+		zz.Assert(err == nil && dc["k"] == w, "C11.method/value-receiver-on-named-map")
+	case 6:
+		r, err := Execute(e, nil, "out.Val()")
+		x, ok := r.(int64)
+		zz.Assert(err == nil && ok && x == a, "C11.method/promoted-value-receiver")
+	case 7:
+		_, err := Execute(e, nil, "out.Set(W)")
+		zz.Assert(err == nil && out.A == w, "C11.method/promoted-pointer-receiver")
+	case 8:
+		r, err := Execute(e, nil, "[st][0].Push(W)")
+		zz.Assert(err == nil && r == int64(2) && len(*st) == 2, "C11.method/pointer-receiver-through-container")
+	case 9:
+		r, err := Execute(e, nil, "out.A")
+		x, ok := r.(int64)
+		zz.Assert(err == nil && ok && x == a, "C11.member/promoted-field")
+		_, err = Execute(e, nil, "out.N = W")
+		zz.Assert(err == nil && out.N == w, "C11.member/write-own-field-next-to-embedded")
+	}
+}
+
 // ZZ_C11_calls: arguments arrive converted, for fixed / variadic functions and
 // plain / spread calls; all results come back.
 func ZZ_C11_calls() {
